@@ -56,8 +56,8 @@ static const char *SV_NAME[] = {"blocking-aggregator", "blocking-extender", "asy
 typedef struct {
 	int b, mask, u, h, p, a, q, f, x, v;
 	char scheme[16];
-	char tail[200];   /* host[:port][path][?query][#fragment] exactly as composed */
-	char uri[512];
+	char tail[6400];   /* host[:port][path][?query][#fragment] exactly as composed */
+	char uri[6700];
 } ccase;
 
 static int nletters(const char *s) { int n = 0; for (; *s; s++) if (isalpha((unsigned char)*s)) n++; return n; }
@@ -75,7 +75,14 @@ static void compose(ccase *c) {
 	o += snprintf(c->tail + o, sizeof c->tail - (size_t)o, "%s", HOSTS[c->h]);
 	if (PORTS[c->p]) o += snprintf(c->tail + o, sizeof c->tail - (size_t)o, ":%u", PORTS[c->p]);
 	if (PATHS[c->a]) o += snprintf(c->tail + o, sizeof c->tail - (size_t)o, "%s", PATHS[c->a]);
-	if (c->q) o += snprintf(c->tail + o, sizeof c->tail - (size_t)o, "?%s", QUERY);
+	if (c->q == 1) o += snprintf(c->tail + o, sizeof c->tail - (size_t)o, "?%s", QUERY);
+	if (c->q == 2) {
+		/* a query of 6000 characters: the composed URL is longer than 4 KiB */
+		int k;
+		o += snprintf(c->tail + o, sizeof c->tail - (size_t)o, "?q=");
+		for (k = 0; k < 6000 && (size_t)o + 2 < sizeof c->tail; k++) c->tail[o++] = (char)('0' + k % 10);   /* digits only: no credential string can occur in it */
+		c->tail[o] = 0;
+	}
 	if (c->f) o += snprintf(c->tail + o, sizeof c->tail - (size_t)o, "#%s", FRAG);
 	if (c->u) snprintf(c->uri, sizeof c->uri, "%s://%s:%s@%s", c->scheme, UI_USER[c->u], UI_KEY[c->u], c->tail);
 	else snprintf(c->uri, sizeof c->uri, "%s://%s", c->scheme, c->tail);
@@ -94,7 +101,7 @@ static struct {
 	const char *fail_stage;  /* first libksi API call that returned an error */
 	int set_res, send_res, perf_res, set_done, send_done, perf_done;
 	int n_http;
-	char url[2048];
+	char url[8192];
 	vbuf body;
 	int n_fopen;
 	char fpath[600];
@@ -321,7 +328,7 @@ static int pdu_open(const unsigned char *b, size_t n, unsigned tag, const char *
 typedef struct {
 	int refuse;            /* 1: the service must refuse the URI (asynchronous service: file and unknown schemes) */
 	int transport;         /* 'h' HTTP, 't' TCP, 'f' file */
-	char url[600];         /* 'h': exact URL that must be handed to the HTTP library */
+	char url[6700];         /* 'h': exact URL that must be handed to the HTTP library */
 	int must_accept;       /* 0 = SILENT: a refusal is acceptable */
 	const char *silent_why;
 	const char *user, *key;        /* expected login id / HMAC key, NULL = SILENT */
@@ -785,6 +792,22 @@ static void run(void) {
 		run_guarded(exec_service, &c, &crashed);
 		evaluate(&c, crashed);
 		vf_outcome("mixed-credentials:done");
+		vf_case_end(1);
+	}
+	/* (5) a URI whose query is 6000 characters long (the rewritten URL is longer than 4 KiB): same expectations */
+	memset(&c, 0, sizeof c);
+	for (c.b = 0; c.b < NSCH; c.b++)
+	for (c.u = 0; c.u < 2; c.u++)
+	for (c.f = 0; c.f < 2; c.f++)
+	for (c.v = 0; c.v < NSV; c.v++) {
+		int crashed;
+		c.mask = 0; c.h = 0; c.p = 2; c.a = 2; c.q = 2; c.x = c.u ? 0 : 1;
+		if (!vf_case_begin("long-query:s%d:u%d:f%d:v%d", c.b, c.u, c.f, c.v)) continue;
+		compose(&c);
+		reset_seam();
+		run_guarded(exec_service, &c, &crashed);
+		evaluate(&c, crashed);
+		vf_outcome("long-query:done");
 		vf_case_end(1);
 	}
 	reset_seam();
